@@ -26,18 +26,20 @@ def dec_rows(X):
 
 
 class Recorder(torch.nn.Module):
-    def __init__(self, kind, log):
+    def __init__(self, kind, log, pdtype=torch.float64):
         super().__init__()
         self.kind, self.log = kind, log
-        self.w = torch.nn.Parameter(torch.ones(1, dtype=torch.float64))
+        self.argdtypes = None
+        self.w = torch.nn.Parameter(torch.ones(1, dtype=pdtype))
         self.drop = torch.nn.Dropout(0.5)
         self.bn = torch.nn.BatchNorm1d(1)
 
     def forward(self, X, *args):
         rows = dec_rows(X)
         self.log.append(dict(ev="forward", rows=rows, args=[[int(v) // 10 for v in a.reshape(len(a), -1)[:, 0].tolist()] for a in args],
-                             training=bool(self.training), grad=bool(torch.is_grad_enabled())))
-        r = torch.tensor(rows, dtype=torch.float64).reshape(-1, 1) * self.w
+                             training=bool(any(m.training for m in self.modules())), grad=bool(torch.is_grad_enabled()),
+                             argdtype_ok=self.argdtypes is None or [a.dtype for a in args] == self.argdtypes))
+        r = torch.tensor(rows, dtype=self.w.dtype).reshape(-1, 1) * self.w
         r = self.drop(torch.ones_like(r)) * r if self.training else r       # train mode would perturb the outputs
         if self.kind == "tensor":
             return r
@@ -47,8 +49,10 @@ class Recorder(torch.nn.Module):
 
 def one_call(n, b, nargs, bad_arg, kind, dt, cid):
     log = []
-    model = Recorder(kind, log)
+    model = Recorder(kind, log, pdtype=torch.float32 if dt % 4 == 3 else torch.float64)
     model.train()
+    if dt % 3 == 1:          # a model whose root is in eval mode while a sub-module is still in training mode
+        model.eval(); model.drop.train(); model.bn.train()
     X = enc_rows(n, [torch.float32, torch.int8, torch.float64][dt % 3])
     args = None
     argn = []
@@ -59,6 +63,7 @@ def one_call(n, b, nargs, bad_arg, kind, dt, cid):
             a = (torch.arange(m, dtype=torch.float64) * 10 + k).reshape(m, 1) if k != 1 else torch.arange(m) * 10 + k
             args.append(a); argn.append(m)
         args = tuple(args) if dt % 2 else args
+        model.argdtypes = [a.dtype for a in args]
     tens = [X] + (list(args) if args else [])
     d0 = [base.tdig(t) for t in tens]
     evs = [dict(ev="call", id=cid, n=n, b=b, argn=argn, kind=kind)]
